@@ -39,9 +39,15 @@ def content(arg, form):
     return items
 
 
-def apply_bar(b, a, k=0):
+def apply_bar(b, a, k=0, shared=None):
     op = a["op"]
     forms = ["list", "nc", "single"]
+    if op == "place_notes" and shared is not None and not a["arg"]["rest"]:
+        import json
+        key = json.dumps(a["arg"], sort_keys=True)
+        if key not in shared:
+            shared[key] = content(a["arg"], "nc")
+        return b.place_notes(shared[key], build(a["v"]))
     if op == "place_notes":
         return b.place_notes(content(a["arg"], forms[k % 3]), build(a["v"]))
     if op == "place_rest":
@@ -86,11 +92,12 @@ def run_case(c):
         note = {"rest": False, "items": [{"t": "bare", "n": ["C"], "o": 0}]}
         acts = [{"op": "place_notes", "v": c["v"], "arg": note} for _ in range(c["n"])]
         acts += [{"op": "place_at", "i": i, "arg": {"rest": False, "items": [{"t": "pair", "n": ["E"], "o": 5}]}} for i in range(c["n"], 0, -1)]
+    shared = {} if c.get("share") else None
     for k, a in enumerate(acts):
         inp = {kk: vv for kk, vv in a.items() if kk != "op"}
         box = {}
         def f():
-            box["r"] = apply_bar(b, a, k)
+            box["r"] = apply_bar(b, a, k, shared)
         rec = call(a["op"], inp, f, lambda _: 0)
         r = box.get("r", False)
         rec["ret"] = r if isinstance(r, bool) else False
